@@ -192,6 +192,8 @@ class Gen:
         if cmd == "NICK":
             if server:
                 return "NICK %s 1 1 services localhost.net services.localhost.net 0 :Services" % r.choice(SVCNICKS + [n])
+            if r.random() < 0.04:
+                n = r.choice(["n" * 40, "N" * 601, "q" * 32 + "{"])      # beyond NICKLEN: refused, whatever the length
             return "NICK " + n
         if cmd == "USER":
             return "USER %s 0 * :%s" % (r.choice(["u", "blah", "a!b", ""]), r.choice(["Real Name", "", "x"]))
@@ -200,7 +202,7 @@ class Gen:
         if cmd == "SERVER":
             return "SERVER services.localhost.net 1 :Services for IRC Networks"
         if cmd == "OPER":
-            return "OPER %s %s" % r.choice(OPERS + [("op", "bad"), ("x", "y")])
+            return "OPER %s %s" % r.choice(OPERS + [("op", "bad"), ("x", "y"), ("ghost", ":"), ("op", ":"), ("", "secret")])
         if cmd == "JOIN":
             if "," not in c and c not in self.joined:
                 self.joined.append(c)
@@ -326,6 +328,72 @@ class Gen:
         if r.random() < 0.7:
             self.line(op, "MODE %s -i-k %s" % (c, key))
         self.count("restricted_join")
+        return True
+
+    def stale_invite(self):
+        """an invitation to a channel without +i, the channel dies, somebody re-creates it invite-only: the old
+        invitation must not admit"""
+        r = self.rng
+        regs = [sid for sid, x in self.sessions.items() if x.get("registered") and not x.get("server") and x.get("nick")]
+        if len(regs) < 3:
+            return False
+        a, b, c2 = r.sample(regs, 3)
+        ch = "#inv%d" % r.randrange(4)
+        self.line(a, "JOIN " + ch)
+        self.line(a, "INVITE %s %s" % (self.sessions[b]["nick"], ch))
+        self.line(a, r.choice(["PART " + ch, "PART " + ch, "QUIT :gone"]))
+        self.line(c2, "JOIN " + ch)
+        self.line(c2, "MODE %s %s" % (ch, r.choice(["+i", "+i", "+x", "+k k1"])))
+        self.line(b, "JOIN " + ch)
+        self.line(c2, "NAMES " + ch)
+        self.ops.append("D")
+        self.count("stale_invite")
+        return True
+
+    def multi_join(self):
+        """one JOIN naming several channels, new and existing ones mixed, with other members watching"""
+        r = self.rng
+        regs = [sid for sid, x in self.sessions.items() if x.get("registered") and not x.get("server") and x.get("nick")]
+        if len(regs) < 2:
+            return False
+        a, b = r.sample(regs, 2)
+        old = "#mj%d" % r.randrange(3)
+        self.line(b, "JOIN " + old)
+        fresh = ["#mj%s%d" % (r.choice("xyz"), r.randrange(50)) for _ in range(r.choice([1, 2, 3]))]
+        names = fresh + [old]
+        r.shuffle(names)
+        self.line(a, "JOIN " + ",".join(names))
+        self.line(b, "PRIVMSG %s :seen" % old)
+        self.line(a, "PART " + ",".join(names[:2]))
+        self.ops.append("D")
+        self.count("multi_join")
+        return True
+
+    def services_leave(self):
+        """services remove a user from a channel whose name was created with capital letters (PART / KICK / SVSPART
+        of the pseudo-client or of the user), then the user's state is looked at"""
+        r = self.rng
+        links = getattr(self, "links", None)
+        regs = [sid for sid, x in self.sessions.items() if x.get("registered") and not x.get("server") and x.get("nick")]
+        if not links or not self.svcnicks or not regs:
+            return False
+        l, sv = r.choice(links), r.choice(self.svcnicks)
+        u = r.choice(regs)
+        nick = self.sessions[u]["nick"]
+        ch = r.choice(["#Lobby", "#LOBBY2", "#Mixed[]", "#lower"])
+        self.line(u, "JOIN " + ch)
+        if r.random() < 0.5:
+            self.line(l, ":%s JOIN %s" % (sv, ch))
+        lc = r.choice([ch, ch.lower(), ch.upper()])
+        for t in r.sample(["SVSPART %s %s" % (nick, lc), "KICK %s %s :bye" % (lc, nick), "PART %s" % lc, "SVSJOIN %s %s" % (nick, lc)], r.choice([1, 2])):
+            self.line(l, ":%s %s" % (sv, t))
+        other = r.choice(regs)
+        for t in r.sample(["WHOIS " + nick, "NAMES " + ch, "PRIVMSG %s :anyone" % ch, "MODE %s +i" % ch], 2):
+            self.line(r.choice([u, other]), t)
+        self.line(u, r.choice(["NICK svl%d" % r.randrange(9), "JOIN " + ch, "PART " + ch]))
+        self.ops.append("D")
+        self.ops.append("W")
+        self.count("services_leave")
         return True
 
     def half_registered(self):
@@ -589,6 +657,12 @@ class Gen:
             elif x < 0.523 and self.many_channels():
                 pass
             elif x < 0.545 and self.mode_soup():
+                pass
+            elif x < 0.56 and self.stale_invite():
+                pass
+            elif x < 0.575 and self.multi_join():
+                pass
+            elif x < 0.595 and self.services_leave():
                 pass
             else:
                 self.client_line(r.choice(live))
